@@ -183,7 +183,15 @@ void run(int n, Body body, void* arg, uint64_t seed, int strategy) {
   s.running = -1;
   s.active = true;
   for (int i = 0; i < n; i++) {
-    if (pthread_create(&s.threads[size_t(i)].handle, nullptr, thread_main, reinterpret_cast<void*>(intptr_t(i))) != 0) fail("harness:pthread-create", "pthread_create failed");
+    static long long test_fail_after = getenv("SIM_TEST_PTHREAD_FAIL_AFTER") ? atoll(getenv("SIM_TEST_PTHREAD_FAIL_AFTER")) : -1;   // self-test of the replacement path
+    static long long created = 0;
+    bool forced = test_fail_after >= 0 && ++created > test_fail_after;
+    if (forced || pthread_create(&s.threads[size_t(i)].handle, nullptr, thread_main, reinterpret_cast<void*>(intptr_t(i))) != 0) {
+      // A long-lived (ThreadSanitizer) worker can run out of thread resources after tens of thousands of runs. That says
+      // nothing about asmjit: the worker asks to be replaced and the run is executed again by its successor.
+      fprintf(stderr, "[worker] pthread_create failed - asking for a fresh worker\n");
+      hard_exit(4);
+    }
   }
   // start the first thread and wait until the last one finishes
   int first = choose(-1);
